@@ -30,7 +30,10 @@ Clauses (budget ``N`` = ``max_iter``, or the number of generated samples for a D
 4. optimisation problems: whenever a termination criterion fired (budget, xtol/ftol/KKT, time,
    NaN) ``execute`` returns a non-``None`` result whose ``x_opt`` is a database key, and no
    ``TerminationCriterion`` escapes; a DOE always returns a result (raising samples included);
-5. repeated executions with / without counter reset (clause 1 with the reduced budget).
+5. repeated executions: with counter reset clause 1 applies afresh; without reset the budget is shared by the
+   executions since the last reset (entries created since that reset <= N whatever stopped each execution) and the
+   evaluation counter equals the number of entries created since the last reset after every execution (optimisation
+   libraries and sequential DOEs; a parallel DOE is only observed).
 """
 
 from __future__ import annotations
@@ -57,7 +60,9 @@ RULE = (
     "(convex quadratic, Rosenbrock-like, linear program, two-objective, NaN in a half-space, raising in a half-space, "
     "10 ms sleeping), constraints (none / inequality / equality / vector), integer variable, stop cause "
     "(budget, ftol, xtol, KKT, max_time, NaN, raising sample), normalize_design_space, use_database, round_ints, "
-    "differentiation method, serial / 2-process DOE, second execution with or without counter reset) plus a "
+    "differentiation method, serial / 2-process DOE, second execution with or without counter reset; time-sliced runs: "
+    "2-6 executions sharing one budget without counter reset, a random subset stopped by a tiny max_time or a loose "
+    "tolerance) plus a "
     "systematic sweep of every factory algorithm over the budgets and directed corner cases; a case is distinct by "
     "that tuple (coefficients excluded) and non-trivial when at least one original callable was called"
 )
@@ -70,6 +75,13 @@ ASSUMPTIONS = [
     "composite algorithms (MultiStart, MNBI, augmented Lagrangian) are held to the budget of each driver "
     "execution they start, observed through the wrapper on BaseDriverLibrary.execute",
     "wall-clock is never part of a verdict; a watchdog firing discards that case only (counted)",
+    "reading of 'repeated executions ... without counter reset': the counter is not reset, so the budget N is shared by "
+    "the executions since the last reset: an execution without reset may create at most N minus the database entries "
+    "created since that reset (counted by the harness, whatever criterion stopped the previous executions), and after "
+    "every execution evaluation_counter.current equals the number of non-empty entries created since the last reset; "
+    "this is a verdict for optimisation libraries and sequential DOEs on the main problem; a parallel DOE (workers do "
+    "not see the counter), composite and LP/MILP algorithms are held to 'at most N new entries' and the difference is "
+    "only observed",
 ]
 ANCHORS = [
     "gemseo.algos.problem_function:ProblemFunction._compute_output_db",
@@ -98,6 +110,10 @@ _MIN_QUICK = {
     "stop:MaxIterReachedException": 250, "stop:FtolReached": 30, "stop:XtolReached": 30, "stop:MaxTimeReached": 50,
     "stop:FunctionIsNan": 15, "stop:KKTReached": 15, "doe_runs_with_raising_samples": 30, "doe_runs_parallel": 15,
     "doe_runs_with_duplicate_samples": 30,
+    # time-sliced runs (clause 5)
+    "sliced_cases": 200, "executions_without_reset_judged": 650, "clause5_shared_budget_checked": 650,
+    "clause5_counter_conservation_checked": 1500, "executions_without_reset_stopped_by_max_time": 140,
+    "executions_without_reset_stopped_by_tolerance": 40, "executions_without_reset_stopped_by_budget": 300,
 }
 MIN_COUNTERS = {
     "quick": dict(_MIN_QUICK, opt_algorithms_swept=20, doe_algorithms_swept=29),
@@ -143,7 +159,8 @@ class HarnessTimeout(BaseException):
 # =========================================================================== shards
 def shards(tier, seed):
     n_random = {"quick": 70, "thorough": 4000}[tier]
-    return [{"seed": subseed(seed, PID, i), "n_random": n_random, "n_shards": N_SHARDS,
+    n_sliced = {"quick": 25, "thorough": 900}[tier]
+    return [{"seed": subseed(seed, PID, i), "n_random": n_random, "n_sliced": n_sliced, "n_shards": N_SHARDS,
              "budget_s": {"quick": 300, "thorough": 2000}[tier]} for i in range(N_SHARDS)]
 
 
@@ -224,7 +241,9 @@ class Monitors:
                 record["budget"] = problem.evaluation_counter.maximum
                 record["counter_after"] = problem.evaluation_counter.current
                 if state["start"] is not None and counter.current < state["start"] + record["events"]:
-                    record["counter_decreased"] = True  # reset after the last new iteration
+                    # the last new iteration(s) were not counted (or the counter was reset after them): judged by the
+                    # conservation clause, not attributed to a reset in the middle of the run
+                    record["counter_lag_at_end"] = True
                 record["library"] = self
                 record["problem"] = problem
                 if added:
@@ -550,6 +569,10 @@ def run_case(case, rep, scratch=None, tag="generated"):
         rep.observe("harness-could-not-build-problem", {"case": case, "error": repr(exc)})
         return
     any_call = False
+    # entries created since the last counter reset, counted by the harness (never read from the counter under test)
+    epoch = {"entries": 0}
+    if len(case["runs"]) > 2 or case.get("sliced"):
+        rep.count("sliced_cases")
     for index, run in enumerate(case["runs"]):
         keys_before, names_before = db_snapshot(problem)
         first_call = len(recorder.calls)
@@ -571,7 +594,8 @@ def run_case(case, rep, scratch=None, tag="generated"):
             rep.count(f"watchdog:{run['algo']}")
             rep.observe("watchdog-fired", {"algo": run["algo"], "N": run["N"]})
             return
-        refused = judge_run(case, index, run, problem, model, out, calls, terminations, keys_before, names_before, rep)
+        refused = judge_run(case, index, run, problem, model, out, calls, terminations, keys_before, names_before, rep,
+                            epoch)
         if refused or out["aborted"] or out["exception"] is not None:
             break
     rep.case(case_signature(case), nontrivial=any_call)
@@ -603,6 +627,13 @@ def stop_of(terminations):
     return names
 
 
+def shared_budget_applies(run):
+    """Executions for which the real code shares the budget between executions without counter reset."""
+    if run["algo"] in COMPOSITE or run["algo"] in LP_ALGOS:
+        return False
+    return not (run["kind"] == "doe" and run["settings"].get("n_processes", 1) > 1)
+
+
 def excess_signature(what, record, case, family, level, when):
     """Mechanism signature of a budget excess with the database on."""
     if record.get("counter_decreased"):
@@ -617,7 +648,7 @@ def excess_signature(what, record, case, family, level, when):
 OUTSIDE_BOUNDS = ("of the given array", "than the lower bound", "than the upper bound")
 
 
-def judge_run(case, index, run, problem, model, out, calls, terminations, keys_before, names_before, rep):
+def judge_run(case, index, run, problem, model, out, calls, terminations, keys_before, names_before, rep, epoch=None):
     """Apply clauses 1-5 to one execution (and to the nested executions it started). Returns True on a refusal."""
     pd = case["problem"]
     mask = int_mask(pd)
@@ -690,9 +721,16 @@ def judge_run(case, index, run, problem, model, out, calls, terminations, keys_b
             declared = len(out["library"].samples)
             allowed = declared if record["reset"] else max(0, declared - record["counter_before"])
         record["allowed"] = allowed
-        if allowed < declared:
-            # the statement promises "at most N new entries"; continuing the counter of the previous execution
-            # (N - counter) is what the sequential code does, it is only observed
+        # Clause 5.  Without counter reset the budget N is shared by the executions since the last reset: such an
+        # execution may add at most N minus the entries created since that reset.  This is a verdict where the real code
+        # honours it (optimisation libraries and sequential DOEs on the main problem); the harness counts the entries
+        # itself.  A parallel DOE does not apply it (workers do not see the counter) and composite / LP algorithms have
+        # their own accounting: there N - counter stays an observation and the verdict is "at most N new entries".
+        shared = bool(is_main and epoch is not None and db_on and not record["reset"] and shared_budget_applies(run))
+        if shared:
+            allowed = counter_allowed = max(0, declared - epoch["entries"])
+            rep.count("clause5_shared_budget_checked")
+        elif allowed < declared:
             counter_allowed, allowed = allowed, declared
         else:
             counter_allowed = allowed
@@ -709,18 +747,40 @@ def judge_run(case, index, run, problem, model, out, calls, terminations, keys_b
                 rep.observe("execution-without-counter-reset-adds-more-than-N-minus-counter-entries",
                             {"algo": record["algo"], "parallel": settings.get("n_processes", 1) > 1,
                              "new_entries": new_entries, "N": declared, "counter_before": record["counter_before"]})
-            if new_entries > allowed:
+            if shared and new_entries - len(empty_keys) > allowed and not record.get("counter_decreased"):
+                rep.violation(f"C03:entries-since-last-reset-exceed-budget:{family}",
+                              "5: entries since the last counter reset <= N", witness,
+                              observed={"new_entries": new_entries - len(empty_keys), "algo": record["algo"],
+                                        "entries_since_last_reset_before": epoch["entries"],
+                                        "counter_before": record["counter_before"]},
+                              expected={"allowed": allowed, "N": declared})
+            elif new_entries > allowed:
                 rep.violation(excess_signature("entries", record, case, family, level, when), "1: new database entries <= N",
                               witness, observed={"new_entries": new_entries, "algo": record["algo"]},
                               expected={"allowed": allowed, "N": declared, "reset": record["reset"],
                                         "counter_before": record["counter_before"]})
+            # counter conservation: after the execution the counter equals the entries created since the last reset
+            if is_main and epoch is not None and db_on and shared_budget_applies(run) and record["returned"] \
+                    and not out["aborted"]:
+                since_reset = (0 if record["reset"] else epoch["entries"]) + new_entries - len(empty_keys)
+                rep.count("clause5_counter_conservation_checked")
+                if record.get("counter_after") != since_reset and not record.get("counter_decreased"):
+                    rep.violation(f"C03:evaluation-counter-differs-from-entries-since-last-reset:{family}:"
+                                  f"{term_names[0] if term_names else 'completed'}",
+                                  "5: counter == entries since the last reset", witness,
+                                  observed={"counter": record.get("counter_after"), "algo": record["algo"],
+                                            "counter_before": record["counter_before"]},
+                                  expected={"entries_since_last_reset": since_reset})
             rep.count("clause1_events_checked")
             if record["events"] != new_entries - (len(empty_keys) if is_main else 0) and not out["aborted"] \
                     and not stale_listener:
                 rep.violation(f"C03:new-iteration-events-differ-from-new-entries:{family}:{level}", "1: events == entries",
                               witness, observed={"events": record["events"], "new_entries": new_entries},
                               expected="equal")
-        # clause 2: distinct non-probe points not known before the run
+        # clause 2: distinct non-probe points not known before the run (points that returned NaN or raised create no entry,
+        # so with a shared budget the bound is the remaining budget plus those points)
+        if shared:
+            allowed += len({bits(c["x"]) for c in own_calls if c["status"] != "ok"})
         before_c = {bits(canon(k, mask, round_ints)) for k in keys_before} if is_main else set()
         distinct = {bits(c["x"]) for c in own_calls} - before_c
         extra = 0
@@ -743,6 +803,17 @@ def judge_run(case, index, run, problem, model, out, calls, terminations, keys_b
         elif is_main and not db_on:
             rep.count("database_off_within_budget")
 
+    if epoch is not None and main is not None and "db_after" in main:
+        gained = main["db_after"] - main["db_before"] - len(empty_keys)
+        epoch["entries"] = gained if main["reset"] else epoch["entries"] + gained
+        if not main["reset"] and index > 0:
+            rep.count("executions_without_reset_judged")
+            if "MaxTimeReached" in term_names:
+                rep.count("executions_without_reset_stopped_by_max_time")
+            if {"FtolReached", "XtolReached"} & set(term_names):
+                rep.count("executions_without_reset_stopped_by_tolerance")
+            if "MaxIterReachedException" in term_names:
+                rep.count("executions_without_reset_stopped_by_budget")
     # ---- clause 2b: at most one call of each original callable per database key (database on, single database)
     parallel_doe = is_doe and settings.get("n_processes", 1) > 1
     if db_on and run["algo"] not in LP_ALGOS and not (run["algo"] in COMPOSITE and run["algo"] != "MultiStart") \
@@ -926,6 +997,11 @@ def judge_doe(case, run, out, calls, keys_before, new_keys, term_names, db_on, m
             # some evaluated point is lb + s*(ub-lb) for a sample s without being a sample itself
             twice = any(any(close(p[fmask], g[fmask]) for g in garbage)
                         and not any(close(p[fmask], s[fmask]) for s in samples) for p in pts)
+            # ... or (when that point happens to coincide with another sample) a key was recorded with values although
+            # the function was evaluated at lb + key*(ub-lb) and not at the key
+            twice = twice or any(
+                find(k, empty_keys) < 0 and not any(close(p[fmask], k[fmask]) for p in pts)
+                and any(close(p[fmask], (lb + k * (ub - lb))[fmask]) for p in pts) for k in new_keys)
         else:  # nothing evaluated: a previous execution already recorded the same wrong points
             twice = bool(all_keys) and all(any(close(k[fmask], g[fmask]) for k in all_keys) for g in garbage) and \
                 not all(any(close(k[fmask], s[fmask]) for k in all_keys) for s in samples)
@@ -1265,6 +1341,73 @@ def add_second_run(rng, cat, case):
     return case
 
 
+def gen_sliced_case(rng, cat):
+    """Time-sliced runs: 2-6 executions on one problem sharing one budget (no counter reset after the first one), a
+    random subset of them stopped by a tiny time limit or by a loose tolerance."""
+    n_exec = int(rng.integers(2, 7))
+    if rng.random() < 0.7:
+        names = [a for a in sorted(cat["opt"]) if a in INPROCESS_OPT and a not in COMPOSITE and a not in LP_ALGOS]
+        algo = str(rng.choice(names))
+        N = int(rng.choice([3, 5, 8, 13]))
+        sleeping = rng.random() < 0.3
+        case = gen_opt_case(rng, cat, algo, N, "max_time" if sleeping else "budget",
+                            {"use_database": True, "n_int": 0})
+        first = case["runs"][0]
+        for k in [k for k in first["settings"] if k.startswith("kkt_tol")]:
+            first["settings"].pop(k)
+        base = {k: v for k, v in first["settings"].items() if k not in ("max_time",)}
+        runs = []
+        for i in range(n_exec):
+            r = json.loads(json.dumps(first))
+            r["settings"] = dict(base)
+            how = str(rng.choice(["time", "time", "tolerance", "none"]))
+            if how == "time":
+                r["settings"]["max_time"] = 0.025 if sleeping and rng.random() < 0.5 else 1e-9
+                r["stop"] = "max_time"
+            elif how == "tolerance":
+                r["settings"].update({str(rng.choice(["ftol_abs", "xtol_abs"])): 1e12, "stop_crit_n_x": int(rng.integers(2, 4))})
+                r["stop"] = "tolerance"
+            else:
+                r["stop"] = "budget"
+            if i > 0:
+                r["settings"]["reset_iteration_counters"] = False
+            elif rng.random() < 0.5:
+                r["settings"]["reset_iteration_counters"] = True
+            runs.append(r)
+        # sometimes a new epoch in the middle: a reset, then slices again
+        if n_exec >= 4 and rng.random() < 0.25:
+            runs[int(rng.integers(2, n_exec - 1))]["settings"]["reset_iteration_counters"] = True
+        case["runs"] = runs
+    else:
+        names = [a for a in sorted(cat["doe"]) if a in INPROCESS_DOE]
+        algo = str(rng.choice(names))
+        sleeping = rng.random() < 0.3
+        case = gen_doe_case(rng, cat, algo, int(rng.choice([3, 5, 8, 13])), "max_time" if sleeping else
+                            str(rng.choice(["budget", "budget", "raise"])), {"use_database": True, "n_processes": 1,
+                                                                             "normalize_design_space": False})
+        first = case["runs"][0]
+        first["settings"].pop("max_time", None)
+        keep = {k: v for k, v in first["settings"].items()
+                if k in ("normalize_design_space", "use_database", "round_ints", "eval_jac")}
+        fields = cat["doe"][algo]["fields"]
+        runs = []
+        for i in range(n_exec):
+            r = json.loads(json.dumps(first))
+            Ni = int(rng.choice([3, 5, 8, 13]))
+            r["N"] = Ni
+            r["settings"] = dict(keep)
+            r["settings"].update(doe_settings(rng, algo, fields, Ni, case["problem"]))
+            if rng.random() < 0.45:
+                r["settings"]["max_time"] = 0.025 if sleeping and rng.random() < 0.5 else 1e-9
+                r["stop"] = "max_time"
+            if i > 0:
+                r["settings"]["reset_iteration_counters"] = False
+            runs.append(r)
+        case["runs"] = runs
+    case["sliced"] = True
+    return case
+
+
 STOPS_OPT = ["budget", "budget", "budget", "ftol", "xtol", "max_time", "nan", "kkt"]
 STOPS_DOE = ["budget", "budget", "raise", "raise", "nan", "max_time"]
 
@@ -1423,6 +1566,37 @@ def directed_cases(cat):
                 second["settings"].update(max_iter=n2, reset_iteration_counters=reset)
                 c["runs"].append(second)
                 out.append(c)
+    # time-sliced runs sharing one budget N: slices stopped by a tiny time limit, then slices without time limit
+    for algo in ("SLSQP", "L-BFGS-B", "NLOPT_COBYLA", "NELDER-MEAD", "DIFFERENTIAL_EVOLUTION"):
+        if algo not in cat["opt"]:
+            continue
+        for N, n_timed in ((4, 8), (6, 3), (5, 1)):
+            c = opt(algo, N, max_time=1e-9, stop="max_time")
+            for i in range(n_timed + 1):
+                r = json.loads(json.dumps(c["runs"][0]))
+                r["settings"]["reset_iteration_counters"] = False
+                if i == n_timed:
+                    r["settings"].pop("max_time")
+                    r["stop"] = "budget"
+                c["runs"].append(r)
+            c["sliced"] = True
+            out.append(c)
+        # slices stopped by a loose tolerance, a reset in the middle, then the shared budget again
+        c = opt(algo, 7, ftol_abs=1e12, stop_crit_n_x=2, stop="ftol")
+        for i, extra in enumerate(({"xtol_abs": 1e12, "stop_crit_n_x": 2}, {"max_time": 1e-9}, {}, {"max_time": 1e-9}, {})):
+            r = opt(algo, 7, **extra)["runs"][0]
+            r["settings"]["reset_iteration_counters"] = i == 2
+            c["runs"].append(r)
+        c["sliced"] = True
+        out.append(c)
+        # sleeping objective, 25 ms slices
+        c = opt(algo, 9, pd=dict(rosen, sleep_ms=10), max_time=0.025, stop="max_time")
+        for i in range(4):
+            r = json.loads(json.dumps(c["runs"][0]))
+            r["settings"]["reset_iteration_counters"] = False
+            c["runs"].append(r)
+        c["sliced"] = True
+        out.append(c)
     # DOE corners: duplicates in a custom DOE, raising samples, parallel, repeated DOE without reset
     quad = {"fam": "quad", "n": 2, "n_int": 0, "lb": [-1.0, 0.0], "ub": [1.0, 2.0], "x0": [0.0, 1.0],
             "A": [[2.0, 0.5], [0.5, 1.0]], "c": [0.3, 0.8], "sleep_ms": 0,
@@ -1462,6 +1636,18 @@ def directed_cases(cat):
             second["N"] = 4
             c["runs"].append(second)
             out.append(c)
+    # time-sliced sequential DOEs: each slice is stopped by the time limit after its first new sample
+    if "CustomDOE" in cat["doe"]:
+        grid = [[round(-0.9 + 0.2 * i, 2), round(0.1 + 0.2 * i, 2)] for i in range(9)]
+        c = doe("CustomDOE", 9, samples=grid, max_time=1e-9, stop="max_time")
+        for i in range(4):
+            r = json.loads(json.dumps(c["runs"][0]))
+            r["settings"]["reset_iteration_counters"] = False
+            if i == 3:
+                r["settings"].pop("max_time")
+            c["runs"].append(r)
+        c["sliced"] = True
+        out.append(c)
     # completion order reversed by skewed durations: the database must still follow the generation order
     if "DiagonalDOE" in cat["doe"]:
         for n_proc in (2, 3):
@@ -1599,6 +1785,9 @@ def run_shard(spec, rep):
             cases.append(("sweep", c))
     for _ in range(spec["n_random"]):
         cases.append(("random", gen_random_case(rng, cat)))
+    sliced_rng = np.random.default_rng(subseed(spec["seed"], "sliced"))
+    for _ in range(spec.get("n_sliced", 0)):
+        cases.append(("sliced", gen_sliced_case(sliced_rng, cat)))
     n_sample = 0
     for tag, case in cases:
         if rep.time_left() < 0:
